@@ -55,3 +55,36 @@ package coregex
 //@   modifies @searchState
 //@   ensures refFound(r.engine, r.engine.longest, stringBytes(s), 0) ==> base(result) == base(s) && off(result) == off(s) + refStart(r.engine, r.engine.longest, stringBytes(s), 0) && len(result) == refEnd(r.engine, r.engine.longest, stringBytes(s), 0) - refStart(r.engine, r.engine.longest, stringBytes(s), 0)
 //@   ensures !refFound(r.engine, r.engine.longest, stringBytes(s), 0) ==> len(result) == 0
+
+// ---- enumeration adapters (C04, C11) ----
+
+//@ func (*Regex).AppendAllIndex
+//@   props C04 C11 C07
+//@   requires regexOK(r) && len(b) <= 140737488355328
+//@   modifies dst[*], @searchState
+//@   ensures len(result) >= len(dst) && (forall k :: 0 <= k && k < len(dst) ==> result[k] == old(dst[k]))
+//@   ensures genericEnum(r.engine) ==> len(result) - len(dst) == cnt(r.engine, r.engine.longest, b, 0, -1, normB(n))
+//@   ensures genericEnum(r.engine) ==> (forall k :: len(dst) <= k && k < len(result) ==> isRefMatch(r.engine, r.engine.longest, b, result[k][0], result[k][1]))
+//@   ensures forall k :: len(dst) <= k && k < len(result) ==> 0 <= result[k][0] && result[k][0] <= result[k][1] && result[k][1] <= len(b)
+//@   after call 2: forall k :: 0 <= k && k < len(dst) ==> dst[k] == old(dst[k])
+//@   after call 3: len(lastcall) == len(dst) + len(tail)
+//@   after call 3: forall k :: 0 <= k && k < len(dst) ==> lastcall[k] == old(dst[k])
+
+//@ func (*Regex).AppendAllStringIndex
+//@   props C04 C11 C07
+//@   requires regexOK(r) && len(s) <= 140737488355328
+//@   modifies dst[*], @searchState
+//@   ensures len(result) >= len(dst) && (forall k :: 0 <= k && k < len(dst) ==> result[k] == old(dst[k]))
+//@   ensures genericEnum(r.engine) ==> len(result) - len(dst) == cnt(r.engine, r.engine.longest, stringBytes(s), 0, -1, normB(n))
+
+//@ func (*Regex).Count
+//@   props C04 C11 C07
+//@   requires regexOK(r) && len(b) <= 140737488355328
+//@   modifies @searchState
+//@   ensures result == cnt(r.engine, r.engine.longest, b, 0, -1, normB(n))
+
+//@ func (*Regex).CountString
+//@   props C04 C11 C07
+//@   requires regexOK(r) && len(s) <= 140737488355328
+//@   modifies @searchState
+//@   ensures result == cnt(r.engine, r.engine.longest, stringBytes(s), 0, -1, normB(n))
